@@ -135,6 +135,8 @@ def run(ctx, w):
     # R8 / R9 shared
     c04.print_rules(ctx, w, S, R)
     c17.clamp_rule(ctx, w, S, R)
+    if ctx.tier == "thorough":
+        witnesses(ctx, w)
 
 
 def api_rules(ctx, w, S, R):
@@ -212,3 +214,31 @@ def length_rules(ctx, w, S, R):
             ctx.check(ok, "R7", "%s:%s" % (cs.body, shared.site_key(w, cs.body, cs.point)), "%s builds a blank row of width %s, not the buffer's width" % (cs.body, w.tstr(cs.body, a)), loc=w.site_loc(cs),
                       sample={"fn": cs.body, "width": w.tstr(cs.body, a)})
     ctx.floor("R7", 6, "row-length obligations")
+
+
+def witnesses(ctx, w):
+    """E3 (thorough tier): compile_fail witnesses and their compiling twins,
+    built against the repository under analysis as an external user would."""
+    import os, shutil, subprocess, tempfile, re
+    ctx.rule("R6w", "type-level witnesses: code outside the crate that would mutate or construct screen storage does not compile (each paired with a compiling twin)")
+    here = os.path.dirname(os.path.dirname(os.path.dirname(os.path.abspath(__file__))))
+    tmp = tempfile.mkdtemp(prefix="avt-witness-")
+    try:
+        shutil.copytree(os.path.join(here, "witness"), os.path.join(tmp, "w"), ignore=shutil.ignore_patterns("target", "Cargo.lock"))
+        ct = open(os.path.join(tmp, "w", "Cargo.toml")).read().replace('path = "/repo"', 'path = "%s"' % w.facts.repo)
+        open(os.path.join(tmp, "w", "Cargo.toml"), "w").write(ct)
+        lock = os.path.join(w.facts.repo, "Cargo.lock")
+        if os.path.exists(lock):
+            shutil.copy(lock, os.path.join(tmp, "w", "Cargo.lock"))
+        env = dict(os.environ, CARGO_TARGET_DIR=os.path.join(tmp, "t"), CARGO_NET_OFFLINE="true")
+        r = subprocess.run(["cargo", "+nightly", "test", "--doc", "--offline"], cwd=os.path.join(tmp, "w"), env=env, stdout=subprocess.PIPE, stderr=subprocess.STDOUT, text=True)
+        tests = re.findall(r"^test src/lib.rs - (\S+) \(line \d+\)( - compile fail)?( - compile)? \.\.\. (\w+)", r.stdout, re.M)
+        for name, cf, comp, res in tests:
+            kind = "witness" if cf else "twin"
+            ctx.check(res == "ok", "R6w", "%s:%s" % (name, kind),
+                      ("the %s `%s` no longer behaves as required: " % (kind, name)) + ("code that mutates/constructs screen storage from outside now compiles" if cf else "the compiling twin fails, so its witness proves nothing"),
+                      sample={"witness": name, "kind": kind, "result": res})
+        if len(tests) < 12:
+            ctx.violation("R6w", "floor", "only %d witness doctests ran (12 expected); cargo said: %s" % (len(tests), r.stdout[-600:]))
+    finally:
+        shutil.rmtree(tmp, ignore_errors=True)
